@@ -301,6 +301,15 @@ def _matrix_check(setup, M, add, bump, opi):
         if A.shape != (r + 1, c + 1):
             add({"class": "matrix-shape", "detail": "%s: shape %r" % (name, A.shape)}, opi)
             continue
+        # Whatever the engine and the window: a cell holds -inf (excluded) or a sum of at most r + c - 1 point affinities, each
+        # <= 1, possibly negated by a search.  Anything else (NaN, 1e130, ...) is memory the engine never wrote - judged
+        # before, and independently of, the listed findings about WHERE the C engines put their values under a window.
+        junk = [(i, j, float(A[i, j])) for i in range(1, r + 1) for j in range(1, c + 1)
+                if not (float(A[i, j]) == -math.inf or abs(float(A[i, j])) <= r + c + 1)]
+        if junk:
+            add({"class": "matrix-unwritten-memory", "detail": "%s: cell (%d,%d) holds %r, which no sequence of affinities can produce (%d such cells)"
+                                                               % (name, junk[0][0], junk[0][1], junk[0][2], len(junk))}, opi)
+            return
         v = compare(name, A, M)
         if v is not None and name != "python" and setup["window"] is not None:
             # known: with a window the C affinity matrix (full form and expanded compact form) does not equal the Python
